@@ -48,6 +48,8 @@ type SpecEnv struct {
 	math   bool
 	allocOld Term
 	loopHeads map[int]*State
+	loopEntries map[int]*State
+	expand bool // expand quantifiers over constant ranges (proof of table lemmas by ground evaluation)
 	where  string
 	depth  int
 }
@@ -838,6 +840,20 @@ func (env *SpecEnv) index(x *ast.IndexExpr) Val {
 	}
 	et, b, off, _, _, isStr := env.asSlice(base)
 	i := enc.add(off, env.idxTerm(iv))
+	if ti, ok := env.vc.tables[b.S]; ok {
+		ci, isConst := iv.(*CV)
+		if isAggregate(et) {
+			if isConst {
+				return scalar(types.NewPointer(et), env.vc.elemRef(b, enc.idxLit(ci.V.Int64())))
+			}
+			return scalar(types.NewPointer(et), env.vc.elemRef(b, i))
+		}
+		if isConst && ti.offset >= 0 && ci.V.Sign() >= 0 && ci.V.Int64() < ti.data.dims[ti.level] {
+			// constant index into a constant table: fold to the literal
+			return &CV{ti.data.vals[ti.offset+ci.V.Int64()]}
+		}
+		return env.widen(scalar(et, mkSelect(ti.term, i)))
+	}
 	if isAggregate(et) {
 		return scalar(types.NewPointer(et), env.vc.elemRef(b, i))
 	}
@@ -883,6 +899,22 @@ func (env *SpecEnv) quant(kind string, x *ast.CallExpr) Val {
 	lo := env.idxTerm(env.tr(x.Args[1]))
 	hi := env.idxTerm(env.tr(x.Args[2]))
 	env.math = sv
+	if env.expand {
+		cl, ok1 := termConst(lo)
+		ch, ok2 := termConst(hi)
+		if ok1 && ok2 && ch.Int64()-cl.Int64() <= 8192 {
+			var parts []Term
+			for k := cl.Int64(); k < ch.Int64(); k++ {
+				c := env.child()
+				c.vars[id.Name] = &CV{big.NewInt(k)}
+				parts = append(parts, c.Bool(x.Args[3]))
+			}
+			if kind == "forall" {
+				return scalar(types.Typ[types.Bool], mkAnd(parts...))
+			}
+			return scalar(types.Typ[types.Bool], mkOr(parts...))
+		}
+	}
 	bound := fmt.Sprintf("%s?%d", id.Name, env.vc.sc.n)
 	env.vc.sc.n++
 	ch := env.child()
@@ -915,6 +947,19 @@ func (env *SpecEnv) call(x *ast.CallExpr) Val {
 			// inside old(), locals are read at entry: parameters only
 			ch.locals = nil
 			return ch.tr(x.Args[0])
+		case "atentry":
+			// atentry(k, e): e evaluated in the state just before loop k was entered
+			cv, ok := env.tr(x.Args[0]).(*CV)
+			if !ok || cv.V == nil {
+				env.errf("atentry: first argument must be a loop ordinal")
+			}
+			hs := env.loopEntries[int(cv.V.Int64())]
+			if hs == nil {
+				env.errf("atentry(%d, ...): loop not entered yet", cv.V.Int64())
+			}
+			ch := env.child()
+			ch.cur = hs
+			return ch.tr(x.Args[1])
 		case "athead":
 			// athead(k, e): e evaluated in the state at the head of loop k (current iteration)
 			cv, ok := env.tr(x.Args[0]).(*CV)
@@ -1053,6 +1098,10 @@ func (env *SpecEnv) call(x *ast.CallExpr) Val {
 				c = enc.le(fb.L[0], fa.L[0], signed)
 			}
 			return scalar(fa.T, mkIte(c, fa.L[0], fb.L[0]))
+		case "sameobj":
+			a := env.noMath(func() Val { return env.tr(x.Args[0]) }).(*FV)
+			b := env.noMath(func() Val { return env.tr(x.Args[1]) }).(*FV)
+			return scalar(types.Typ[types.Bool], mkEq(a.L[0], b.L[0]))
 		case "isnil":
 			v := env.noMath(func() Val { return env.tr(x.Args[0]) }).(*FV)
 			return scalar(types.Typ[types.Bool], mkEq(v.L[0], intLit64(0)))
